@@ -136,4 +136,28 @@ def readMessage (H : Bytes → Bytes) (table : List (Bytes × Nat)) (decode : By
       if hdr.magic ≠ magic then ⟨.error .unmatchedMagic, 0, headerSize⟩
       else readBody H table decode hdr (s.drop headerSize)
 
+/-- a peer's read loop (`inHandler`): messages are read one after the other from the same
+    connection until the first error; `fuel` bounds the number of messages. -/
+def readStream (H : Bytes → Bytes) (table : List (Bytes × Nat)) (decode : Bytes → Bytes → Option α)
+    (magic : Nat) : Nat → Bytes → List (Bytes × α) × Option Err
+  | 0, _ => ([], none)
+  | fuel + 1, s =>
+    if s.isEmpty then ([], none)
+    else
+      let o := readMessage H table decode magic s
+      match o.res with
+      | .error e => ([], some e)
+      | .ok m =>
+        let (ms, e) := readStream H table decode magic fuel (s.drop o.consumed)
+        (m :: ms, e)
+
+/-- the writer's side of a session: the frames of a list of (command, max, payload), concatenated;
+    `none` if any `WriteMessage` fails. -/
+def writeStream (H : Bytes → Bytes) (magic : Nat) : List (Bytes × Nat × Bytes) → Option Bytes
+  | [] => some []
+  | (cmd, max, payload) :: rest =>
+    match writeMessage H magic cmd max payload, writeStream H magic rest with
+    | .ok f, some fs => some (f ++ fs)
+    | _, _ => none
+
 end ElaVerif.P2PFrame
